@@ -117,6 +117,8 @@ func rulesC03(c *Ctx) {
 	R.Rule("R12", "the checked sum of the outputs is exact: AmountChecked tests the overflow flag of every single addition, OverflowAddUint64 answers 'ok' only when the sum did not wrap (shared with C02.R12)", 7)
 	R.Rule("R11", "the quote-state op asks the backend whenever the stored state is UNPAID (a payment that arrived while nobody was watching is noticed at the next poll)", 1)
 	c.ruleMintPollCompleteness("R11")
+	R.Rule("R17", "NUT-20: a quote requested with a public key is stored with that key (on every path with a non-empty request key the inserted record carries the parsed key)", 1)
+	c.c03LockStored("R17")
 	R.Rule("R16", "internal settlement pays a mint quote with burned ecash: the melt decision table (shared with C05.R1) - once the melt has credited the mint quote its inputs are never released", 20)
 	c.meltDecisionTable("R16", false)
 	R.Rule("R15", "the quote-state answer reports what was stored: after a successful state write the returned mint quote carries the written state (the mint operation decides on this answer)", 1)
